@@ -6,6 +6,13 @@ From TxV Require Import Proofs.RrelSyntaxProofs Proofs.RrelSyntaxPrintProofs Pro
 Require Import Lia.
 
 (* ---------------------------------------------------------------- every printed token is well formed *)
+Section AllOk.
+Variable u : N -> N.
+Notation tok_ok := (tok_ok u).
+Notation lx_elem := (lx_elem (ident u) expressible nonzero).
+Notation lx_path := (lx_path (ident u) expressible nonzero).
+Notation lx_seq := (lx_seq (ident u) expressible nonzero).
+
 Lemma all_ok_app a b : forallb tok_ok (a ++ b) = (forallb tok_ok a && forallb tok_ok b)%bool.
 Proof. apply forallb_app. Qed.
 
@@ -93,6 +100,8 @@ Proof.
     rewrite t_seq_SCons, all_ok_app. cbn [forallb tok_ok]. rewrite (proj2 (IHp Hp)), (IHs Hs). reflexivity.
 Qed.
 
+End AllOk.
+
 (* ---------------------------------------------------------------- no two adjacent tokens run together *)
 Lemma adj_app p a b : adj_from p (a ++ b) = (adj_from p a && adj_from (end_cls p a) b)%bool.
 Proof.
@@ -170,28 +179,28 @@ Proof.
     rewrite adj_app. cbn [adj_from cls]. rewrite clash_0, (IHp Hp), (IHs Hs). reflexivity.
 Qed.
 
-Theorem toks_ok_print e : wf_expr e -> lexable e = true -> toks_ok (t_expr e) = true.
+Theorem toks_ok_print u e : wf_expr e -> lexable u e = true -> toks_ok u (t_expr e) = true.
 Proof.
   destruct e as [s fl]. unfold wf_expr, lexable, toks_ok, t_expr. cbn [eseq eflags].
   intros Hwf Hlx. apply andb_true_iff in Hlx as [Hs Hfl].
-  destruct all_ok_all as [_ [_ HA]]. destruct adj_all as [_ [_ HJ]].
+  destruct (all_ok_all u) as [_ [_ HA]]. destruct adj_all as [_ [_ HJ]].
   destruct fl as [|c fl].
   - rewrite (HA s Hs), (HJ s Hwf). reflexivity.
   - cbn [forallb tok_ok adj_from cls struth]. cbn [forallb] in Hfl. rewrite Hfl, (HA s Hs), clash_0, (HJ s Hwf). reflexivity.
 Qed.
 
 (* ---------------------------------------------------------------- the round trip on characters *)
-Theorem parse_text_print u e : wf_expr e -> lexable e = true -> parse_text u (print_src e) = Some e.
+Theorem parse_text_print u e : wf_expr e -> lexable u e = true -> parse_text u (print_src e) = Some e.
 Proof.
   intros Hwf Hlx. unfold parse_text. rewrite print_src_render.
-  rewrite (lex_text_render u _ (toks_ok_print e Hwf Hlx)). apply parse_toks_print. exact Hwf.
+  rewrite (lex_text_render u _ (toks_ok_print u e Hwf Hlx)). apply parse_toks_print. exact Hwf.
 Qed.
 
-Theorem same_evaluation (A : Type) (eval : expr -> A) u e : wf_expr e -> lexable e = true ->
+Theorem same_evaluation (A : Type) (eval : expr -> A) u e : wf_expr e -> lexable u e = true ->
   option_map eval (parse_text u (print_src e)) = Some (eval e).
 Proof. intros Hwf Hlx. rewrite (parse_text_print u e Hwf Hlx). reflexivity. Qed.
 
-Theorem lex_text_print u e : wf_expr e -> lexable e = true -> lex_text u (print_src e) = Some (t_expr e).
+Theorem lex_text_print u e : wf_expr e -> lexable u e = true -> lex_text u (print_src e) = Some (t_expr e).
 Proof. intros Hwf Hlx. rewrite print_src_render. apply lex_text_render, toks_ok_print; assumption. Qed.
 
 (* ---------------------------------------------------------------- the hypothesis on fixed names is needed:
@@ -204,10 +213,10 @@ Definition tb_expr : expr :=
   {| eseq := SCons (P1 (ENav [120] false (Some [97;92]))) (S1 (P1 (ENav [121] false (Some [98])))); eflags := [] |}%N.
 
 Lemma trailing_backslash_witness :
-  parse_text ascii_only tb_text = Some tb_expr /\ wf_expr tb_expr /\ lexable tb_expr = false /\
+  parse_text ascii_only tb_text = Some tb_expr /\ wf_expr tb_expr /\ no_trailing_bs tb_expr = false /\
   parse_text ascii_only (print_src tb_expr) = None.
 Proof. vm_compute. repeat split; reflexivity. Qed.
 
 Lemma trailing_backslash_exists : exists s e,
-  parse_text ascii_only s = Some e /\ wf_expr e /\ lexable e = false /\ parse_text ascii_only (print_src e) = None.
+  parse_text ascii_only s = Some e /\ wf_expr e /\ no_trailing_bs e = false /\ parse_text ascii_only (print_src e) = None.
 Proof. exists tb_text, tb_expr. exact trailing_backslash_witness. Qed.
